@@ -19,7 +19,7 @@ RULE = ("cases are strings: (tokens) every sequence of <=4 (thorough <=5) tokens
         "alphabet of digits, newlines, braces, arrows and format markers, enumerated "
         "exhaustively; (trunc) every prefix and every one-character deletion of one document "
         "per writer and per examples/ file; (text) Hypothesis text mixing markers, digits, line "
-        "breaks and printable Unicode; (own) outputs of all writers on generated caption sets (integer or float times) "
+        "breaks and printable Unicode, also with byte order marks in front; (own) outputs of all writers on generated caption sets (integer or float times) "
         "whose text avoids the other formats' markers; (atheris) inputs kept by coverage-guided "
         "libFuzzer campaigns (fresh corpus, oracle inside the target), re-judged here. Non-trivial: the string has at most two "
         "lines, or is a truncated document, or at least one reader's detect() accepts it; for "
@@ -28,7 +28,7 @@ RULE = ("cases are strings: (tokens) every sequence of <=4 (thorough <=5) tokens
         'cues wholly inside frame 0 are excluded). ')
 ASSUMPTIONS = [
     "documented detection order DFXP, MicroDVD, WebVTT, SAMI, SRT, SCC is hard-coded here",
-    "'another format's marker' = the substrings WEBVTT, <sami, </tt> (any case) and a first "
+    "'another format's marker' = the substrings WEBVTT (as written), <sami, </tt> (any case) and a first "
     "line equal to the SCC header; own-output texts avoid them",
 ]
 
@@ -200,7 +200,16 @@ def text_strategy(tier):
             return "{1}{" + "0" * n + "25}text\n" + tail
         # an XML declaration in front of anything
         return '<?xml version="1.0" encoding="utf-8"?>\n' + tail + draw(st.sampled_from(["", "WEBVTT\n", "<sami>", "1\n-->"]))
+    @st.composite
+    def bom_doc(draw):
+        # 1-2 byte order marks (U+FEFF survives decoding with 'utf-8') alone or in front of a
+        # complete small document of some format
+        doc = draw(st.sampled_from(["", "", "1\n00:00:01,000 --> 00:00:02,000\ntext\n", "{1}{25}text\n",
+                                    "Scenarist_SCC V1.0\n\n00:00:01:00\t9420 9420\n", "WEBVTT\n\n",
+                                    "<sami><body></body></sami>", '<tt xmlns="http://www.w3.org/ns/ttml"></tt>']))
+        return "\ufeff" * draw(st.integers(1, 2)) + doc + draw(short)
     return st.one_of(*([st.one_of(short, short, short, long_doc()).map(lambda s: {"s": s})] * 60
+                       + [bom_doc().map(lambda s: {"s": s})] * 3
                        + [huge_doc(), long_first_lines().map(lambda s: {"s": s}),
                           long_first_lines().map(lambda s: {"s": s})]))
 
@@ -221,7 +230,9 @@ def own_strategy(tier):
     def build(draw):
         w = draw(st.sampled_from(sorted(WRITERS)))
         ascii_only = w == "scc"
-        ln = gen.lines(meta=True, pipe=(w != "microdvd"), markers=False, ascii_only=ascii_only)
+        # (the WebVTT marker is the upper-case word; the same letters in another case are text)
+        ln = gen.lines(meta=True, pipe=(w != "microdvd"), markers=False, ascii_only=ascii_only,
+                       extra=["webvtt", "Webvtt", "our webvtt guide", "WebVTT"])
         if w == "scc":
             # SCC: cues far enough apart and short enough to be transmitted, <=4 lines of <=32;
             # durations exceed the transmission time of a caption (the writer's handling of
@@ -269,7 +280,7 @@ def own_strategy(tier):
 
 def _has_marker(text):
     low = text.lower()
-    return "webvtt" in low or "<sami" in low or "</tt>" in low
+    return "WEBVTT" in text or "<sami" in low or "</tt>" in low
 
 
 def check_own(case, rec):
